@@ -106,6 +106,16 @@ def run_case(rep, scn, case, sb, tag, rows, lrows=None):
         n = apt._config.nthreads
         apt._semaphore = make_tracing_semaphore("R", log)(n)
         lt.prepare(apt, base=make_tracing_semaphore("D", log))
+        # when a repository's mirror() is over (independent of the semaphores: run_tool restores the method)
+        import apt_mirror.apt_mirror as am
+        inner = am.RepositoryMirror.mirror
+
+        async def mirror(self):
+            try:
+                return await inner(self)
+            finally:
+                log.append(("M", "done", str(self._repository.url)))
+        am.RepositoryMirror.mirror = mirror
 
     def on_request(url, path):
         log.append(("S", url, id(asyncio.current_task()), path))
@@ -121,7 +131,17 @@ def run_case(rep, scn, case, sb, tag, rows, lrows=None):
     pending = {}   # task -> transfer id awaiting its owner
     rtask_url = {}
     over = [ev for ev in log if ev[1] == "over"]
-    log = [ev for ev in log if ev[1] != "over"]
+    # repositories being mirrored, seen from the transport: from a repository's first request until its mirror()
+    # returns (no reference to who holds which semaphore)
+    active, peak_active, peak_at = set(), 0, None
+    for ev in log:
+        if ev[0] == "S":
+            active.add(ev[1])
+            if len(active) > peak_active:
+                peak_active, peak_at = len(active), sorted(active)
+        elif ev[0] == "M":
+            active.discard(ev[2])
+    log = [ev for ev in log if ev[1] != "over" and ev[0] != "M"]
     for ev in log:
         if ev[0] == "R":
             _, kind, task = ev
@@ -189,6 +209,12 @@ def run_case(rep, scn, case, sb, tag, rows, lrows=None):
         found = True
         rep.violation(f"nthreads={n}: {max(res.max_inflight, maxD)} transfers in flight / {maxR} repositories mirrored at the same time",
                       {"kind": "oracle", "tie": "sched", "case": jc}, tags={"oracle": "bound"})
+    rep.count(f"peak_active_repositories.{peak_active}")
+    if peak_active > n:
+        found = True
+        rep.violation(f"nthreads={n}: {peak_active} repositories are being mirrored at the same time (requests of "
+                      f"{peak_at} before any of their runs ended)",
+                      {"kind": "oracle", "tie": "sched", "case": jc}, tags={"oracle": "active_repositories"})
     inflight = sum(1 for _ in [])  # transport-side counter, summed over repositories at each instant:
     cur = peak = 0
     # stream enter happens right after AcqD, exit right before RelD: the D trace is the in-flight trace
